@@ -43,12 +43,19 @@ def run(tier, seed):
                 if rep % 2 == 1:          # same fault under a user-verification-requiring policy
                     s.require_uv = True
                     s.flags |= 0x04
-                authcat.FAULTS[name](s, rng)
+                authcat.apply(authcat.FAULTS, name, s)
                 s.faults = [name]
                 pol, a = s.build()
                 forms = ("record",) if name in authcat.RECORD_ONLY else ((rng.choice(authrun.FORMS),) if quick else authrun.FORMS)
                 for form in forms:
                     il, ml = B.run_case(pol, a, form, "reject", name)
+        # every variant of the entry at least once (the entry's own generator walks through them)
+        while authcat.variants_left(name):
+            s = authcat.Scn("ES256-P256")
+            authcat.apply(authcat.FAULTS, name, s)
+            s.faults = [name]
+            pol, a = s.build()
+            il, ml = B.run_case(pol, a, "record" if name in authcat.RECORD_ONLY else "dict", "reject", name)
         if i < 3:
             chk.sample({"label": name, "scenario": s.describe(), "impl": il})
     # 3. pairs
